@@ -12,31 +12,32 @@ CONSTANTS TestMode, MaxOps
 RClients == {"c2", "c3"}
 Values == {1, 2}
 
-VARIABLES inst, cell, haveCfg, c1, att, cancelled, nops, last
-rv == <<inst, cell, haveCfg, c1, att, cancelled, nops, last>>
+VARIABLES inst, cell, haveCfg, c1, att, cancelled, nops, last,
+          frozen      \* the plugin process is stopped (SIGSTOP): alive, listening, answering nothing
+rv == <<inst, cell, haveCfg, c1, att, cancelled, nops, last, frozen>>
 
 RInit == /\ inst = "none" /\ cell = 0 /\ haveCfg = FALSE /\ c1 = "new"
-         /\ att = [c \in RClients |-> "no"] /\ cancelled = FALSE /\ nops = 0 /\ last = <<"-", "-", "-">>
+         /\ att = [c \in RClients |-> "no"] /\ cancelled = FALSE /\ nops = 0 /\ last = <<"-", "-", "-">> /\ frozen = FALSE
 RReset == /\ inst' = "none" /\ cell' = 0 /\ haveCfg' = FALSE /\ c1' = "new"
-          /\ att' = [c \in RClients |-> "no"] /\ cancelled' = FALSE /\ nops' = 0 /\ last' = <<"-", "-", "-">>
+          /\ att' = [c \in RClients |-> "no"] /\ cancelled' = FALSE /\ nops' = 0 /\ last' = <<"-", "-", "-">> /\ frozen' = FALSE
 Cnt == nops < MaxOps /\ nops' = nops + 1
 
 \* the plugin comes up (launched by c1, or served in-process in test mode) and its configuration is taken
 Start == /\ Cnt /\ inst = "none"
          /\ inst' = "alive" /\ c1' = (IF TestMode THEN "none" ELSE "started") /\ haveCfg' = TRUE
-         /\ last' = <<"Start", "-", "ok">> /\ UNCHANGED <<cell, att, cancelled>>
+         /\ last' = <<"Start", "-", "ok">> /\ UNCHANGED <<cell, att, cancelled, frozen>>
 
-Reattach(c) == /\ c \in RClients /\ Cnt /\ haveCfg /\ att[c] \in {"no", "failed"}
+Reattach(c) == /\ c \in RClients /\ Cnt /\ haveCfg /\ att[c] \in {"no", "failed"} /\ ~frozen
                /\ IF inst = "alive"
                   THEN att' = [att EXCEPT ![c] = "yes"] /\ last' = <<"Reattach", c, "ok">>
                   ELSE att' = [att EXCEPT ![c] = "failed"] /\ last' = <<"Reattach", c, "notfound">>   \* nothing is listening: process-not-found error
-               /\ UNCHANGED <<inst, cell, haveCfg, c1, cancelled>>
+               /\ UNCHANGED <<inst, cell, haveCfg, c1, cancelled, frozen>>
 
 \* the client object whose reattach failed is asked again (Start / Client on the same value): a dead
 \* plugin stays not found -- the failed attempt must not leave the client looking started
 Again(c) == /\ c \in RClients /\ Cnt /\ att[c] = "failed" /\ inst # "alive"
             /\ last' = <<"Again", c, "notfound">>
-            /\ UNCHANGED <<inst, cell, haveCfg, c1, att, cancelled>>
+            /\ UNCHANGED <<inst, cell, haveCfg, c1, att, cancelled, frozen>>
 
 Usable(c) == IF c = "c1" THEN c1 = "started" ELSE att[c] = "yes"
 AllClients == RClients \cup {"c1"}
@@ -45,32 +46,39 @@ AllClients == RClients \cup {"c1"}
 \* connection that already existed may still be answered (documented for net/rpc: only the listener
 \* is closed).  The property does not say either way, so both are allowed there.
 Lingering == TestMode /\ cancelled
-Set(c, v) == /\ Cnt /\ Usable(c)
+Set(c, v) == /\ Cnt /\ Usable(c) /\ ~frozen
              /\ \/ /\ (inst = "alive" \/ Lingering) /\ cell' = v /\ last' = <<"Set", c, "ok">>
                 \/ /\ inst # "alive" /\ UNCHANGED cell /\ last' = <<"Set", c, "err">>
-             /\ UNCHANGED <<inst, haveCfg, c1, att, cancelled>>
+             /\ UNCHANGED <<inst, haveCfg, c1, att, cancelled, frozen>>
 \* the same live instance: whatever client wrote it, every client reads the value (and the same instance id)
-Get(c) == /\ Cnt /\ Usable(c)
+Get(c) == /\ Cnt /\ Usable(c) /\ ~frozen
           /\ \/ /\ (inst = "alive" \/ Lingering) /\ last' = <<"Get", c, cell>>
              \/ /\ inst # "alive" /\ last' = <<"Get", c, -1>>
-          /\ UNCHANGED <<inst, cell, haveCfg, c1, att, cancelled>>
+          /\ UNCHANGED <<inst, cell, haveCfg, c1, att, cancelled, frozen>>
 
 Kill(c) == /\ Cnt /\ Usable(c)
            /\ IF c = "c1" THEN c1' = "killed" /\ UNCHANGED att ELSE att' = [att EXCEPT ![c] = "killed"] /\ UNCHANGED c1
            /\ inst' = (IF TestMode THEN inst ELSE "dead")        \* test mode: Kill never kills the serving process
+           /\ frozen' = (IF TestMode THEN frozen ELSE FALSE)     \* a plugin that answers nothing is ended all the same
            /\ last' = <<"Kill", c, "done">> /\ UNCHANGED <<cell, haveCfg, cancelled>>
 
 \* the plugin process dies without any shutdown (crash, SIGKILL from outside): nothing it created is
 \* cleaned up -- in particular its Unix socket file stays on disk with nobody listening on it
 Crash == /\ Cnt /\ ~TestMode /\ inst = "alive"
-         /\ inst' = "dead" /\ last' = <<"Crash", "-", "killed">>
+         /\ inst' = "dead" /\ last' = <<"Crash", "-", "killed">> /\ frozen' = FALSE
          /\ UNCHANGED <<cell, haveCfg, c1, att, cancelled>>
+
+\* the plugin process is stopped (SIGSTOP): it stays alive and keeps its sockets but answers nothing --
+\* neither a call nor the request to shut down
+Freeze == /\ Cnt /\ ~TestMode /\ inst = "alive" /\ ~frozen
+          /\ frozen' = TRUE /\ last' = <<"Freeze", "-", "stopped">>
+          /\ UNCHANGED <<inst, cell, haveCfg, c1, att, cancelled>>
 
 Cancel == /\ Cnt /\ TestMode /\ inst = "alive" /\ ~cancelled       \* the test context is cancelled: serving stops
           /\ cancelled' = TRUE /\ inst' = "dead" /\ last' = <<"Cancel", "-", "stopped">>
-          /\ UNCHANGED <<cell, haveCfg, c1, att>>
+          /\ UNCHANGED <<cell, haveCfg, c1, att, frozen>>
 
-RNext == Start \/ Cancel \/ Crash \/ \E c \in AllClients : Kill(c) \/ Get(c) \/ Reattach(c) \/ Again(c) \/ (\E v \in Values : Set(c, v))
+RNext == Start \/ Cancel \/ Crash \/ Freeze \/ \E c \in AllClients : Kill(c) \/ Get(c) \/ Reattach(c) \/ Again(c) \/ (\E v \in Values : Set(c, v))
 RSpec == RInit /\ [][RNext]_rv
 
 TestModeNeverKills == [][(TestMode /\ last'[1] = "Kill") => inst' = inst]_rv
